@@ -785,9 +785,22 @@ func (a *CBOAnalyzer) initializeBuiltinTypes() {
 		"bool", "int", "float", "complex", "str", "bytes", "bytearray",
 		"list", "tuple", "range", "dict", "set", "frozenset",
 		"object", "type", "super", "property", "classmethod", "staticmethod",
-		"Exception", "BaseException", "ValueError", "TypeError", "KeyError",
-		"IndexError", "AttributeError", "NameError", "RuntimeError",
 		"memoryview", "slice",
+		// Built-in exception and warning classes
+		"ArithmeticError", "AssertionError", "AttributeError", "BaseException", "BaseExceptionGroup",
+		"BlockingIOError", "BrokenPipeError", "BufferError", "BytesWarning", "ChildProcessError",
+		"ConnectionAbortedError", "ConnectionError", "ConnectionRefusedError", "ConnectionResetError",
+		"DeprecationWarning", "EOFError", "EncodingWarning", "EnvironmentError", "Exception",
+		"ExceptionGroup", "FileExistsError", "FileNotFoundError", "FloatingPointError", "FutureWarning",
+		"GeneratorExit", "IOError", "ImportError", "ImportWarning", "IndentationError", "IndexError",
+		"InterruptedError", "IsADirectoryError", "KeyError", "KeyboardInterrupt", "LookupError",
+		"MemoryError", "ModuleNotFoundError", "NameError", "NotADirectoryError", "NotImplementedError",
+		"OSError", "OverflowError", "PendingDeprecationWarning", "PermissionError", "ProcessLookupError",
+		"RecursionError", "ReferenceError", "ResourceWarning", "RuntimeError", "RuntimeWarning",
+		"StopAsyncIteration", "StopIteration", "SyntaxError", "SyntaxWarning", "SystemError", "SystemExit",
+		"TabError", "TimeoutError", "TypeError", "UnboundLocalError", "UnicodeDecodeError",
+		"UnicodeEncodeError", "UnicodeError", "UnicodeTranslateError", "UnicodeWarning", "UserWarning",
+		"ValueError", "Warning", "ZeroDivisionError",
 	}
 
 	// Built-in functions (never counted as dependencies)
